@@ -5,7 +5,7 @@
    Order: theorems that hold for every tree first, facts about the regenerated trees last, so that a change of the
    source that breaks one of the latter still leaves the former re-checked and counted. *)
 From Coq Require Import ZArith QArith List Bool String.
-From V Require Import Model.Settings Generated.SettingsGen Proofs.SettingsProofs Proofs.SettingsGenProofs.
+From V Require Import Model.Settings Model.SettingsProg Generated.SettingsGen Proofs.SettingsProofs Proofs.SettingsGenProofs.
 Import ListNotations.
 Open Scope string_scope.
 
@@ -242,3 +242,106 @@ Theorem C14_stored_reload_enumerated :
   all_reloads_ok reg CBillingModel t_DailyLegacySettings = true.
 Proof. split; [|split]; vm_cast_no_check (eq_refl true). Qed.
 Print Assumptions C14_stored_reload_enumerated.
+
+(* ================================================================== (5) the validator bodies, from their source *)
+(* harness/translate_settings.py compiles the python source (ast) of the daily-family model validators —
+   DailySettings._check_developer_mode, _check_alpha_final, _check_final_bounds_scalar,
+   _check_initial_step_percentage and Split_Selection_Definition._check_reduce_splits_num_std — into programs of
+   Model/SettingsProg.v on every run (prog_V* in Generated/SettingsGen.v).  Each regenerated program computes, for
+   EVERY field state in which the fields it reads hold values, exactly the hand-written specification that the
+   theorems above and the correspondence use (run_vid): guard structure (developer_mode switches the lock off and
+   nothing else does), order of the tests, thresholds (2, 0, 1/2, length 2, the "nlopt" prefix of 5 characters) and
+   the None / float / str case split.  A source edit of a validator changes the program and breaks the obligation
+   named after it.  By case analysis on the values (python truthiness and comparisons as in SettingsProg.v). *)
+Local Arguments String.eqb : simpl never.
+Local Arguments Qle_bool : simpl never.
+Local Arguments Qeq_bool : simpl never.
+Local Arguments substring : simpl never.
+Ltac split_matches :=
+  unfold Qlt_b;                       (* a < b is not (b <= a): one kind of comparison atom *)
+  repeat match goal with
+         | |- context [negb ?y] => destruct y; cbn; try reflexivity
+         | |- context [orb ?y _] => destruct y; cbn; try reflexivity
+         | |- context [andb ?y _] => destruct y; cbn; try reflexivity
+         | |- context [match ?x with _ => _ end] =>
+             lazymatch x with
+             | context [match _ with _ => _ end] => fail
+             | _ => destruct x; cbn; try reflexivity
+             end
+         end.
+
+Theorem C14_lock_validator_as_specified : forall gov f,
+  present ["developer_mode"; "silent_developer_mode"] f = true ->
+  run_prog gov f prog_VDevMode = run_vid VDevMode gov f.
+Proof.
+  intros gov f P. unfold present in P. cbn [forallb] in P.
+  unfold run_prog, prog_VDevMode. cbn [run_vid]. unfold v_devmode. cbn.
+  destruct (get_leaf "developer_mode" f) as [a|]; [|discriminate].
+  destruct (get_leaf "silent_developer_mode" f) as [b|]; [|discriminate].
+  clear P. destruct a, b; cbn; split_matches; try reflexivity.
+Qed.
+Print Assumptions C14_lock_validator_as_specified.
+
+Theorem C14_alpha_final_validator_as_specified : forall gov f,
+  present ["alpha_final"; "alpha_final_type"; "alpha_minimum"] f = true ->
+  run_prog gov f prog_VAlphaFinal = run_vid VAlphaFinal gov f.
+Proof.
+  intros gov f P. unfold present in P. cbn [forallb] in P.
+  unfold run_prog, prog_VAlphaFinal. cbn [run_vid]. unfold v_alpha_final. cbn.
+  destruct (get_leaf "alpha_final" f) as [a|]; [|discriminate].
+  destruct (get_leaf "alpha_final_type" f) as [b|]; [|discriminate].
+  destruct (get_leaf "alpha_minimum" f) as [c|]; [|discriminate].
+  clear P. destruct a, b, c; cbn; split_matches; try reflexivity.
+Qed.
+Print Assumptions C14_alpha_final_validator_as_specified.
+
+Theorem C14_final_bounds_validator_as_specified : forall gov f,
+  present ["final_bounds_scalar"; "alpha_final_type"] f = true ->
+  run_prog gov f prog_VFinalBounds = run_vid VFinalBounds gov f.
+Proof.
+  intros gov f P. unfold present in P. cbn [forallb] in P.
+  unfold run_prog, prog_VFinalBounds. cbn [run_vid]. unfold v_final_bounds. cbn.
+  destruct (get_leaf "final_bounds_scalar" f) as [a|]; [|discriminate].
+  destruct (get_leaf "alpha_final_type" f) as [b|]; [|discriminate].
+  clear P. destruct a, b; cbn; split_matches; try reflexivity.
+Qed.
+Print Assumptions C14_final_bounds_validator_as_specified.
+
+Theorem C14_initial_step_validator_as_specified : forall gov f,
+  present ["initial_step_percentage"; "algorithm_choice"] f = true ->
+  run_prog gov f prog_VInitStep = run_vid VInitStep gov f.
+Proof.
+  intros gov f P. unfold present in P. cbn [forallb] in P.
+  unfold run_prog, prog_VInitStep. cbn [run_vid]. unfold v_init_step, starts_nlopt. cbn.
+  destruct (get_leaf "initial_step_percentage" f) as [a|]; [|discriminate].
+  destruct (get_leaf "algorithm_choice" f) as [b|]; [|discriminate].
+  clear P. destruct a, b; cbn; split_matches; try reflexivity.
+Qed.
+Print Assumptions C14_initial_step_validator_as_specified.
+
+Theorem C14_reduce_std_validator_as_specified : forall gov f,
+  present ["reduce_splits_num_std"] f = true ->
+  run_prog gov f prog_VReduceStd = run_vid VReduceStd gov f.
+Proof.
+  intros gov f P. unfold present in P. cbn [forallb] in P.
+  unfold run_prog, prog_VReduceStd. cbn [run_vid]. unfold v_reduce_std. cbn.
+  destruct (get_leaf "reduce_splits_num_std" f) as [a|]; [|discriminate].
+  clear P. destruct a; cbn; try reflexivity.
+  destruct l as [|x [|y [|z r]]]; cbn; try reflexivity; split_matches; try reflexivity.
+Qed.
+Print Assumptions C14_reduce_std_validator_as_specified.
+
+(* non-vacuity: on the fields of a real construction of the regenerated daily tree the reads are present, and the
+   regenerated programs do raise / lock / pass on concrete states *)
+Example C14_validator_programs_nonvacuous :
+  let f := fields_of (the (vtop reg t_DailySettings [("developer_mode", JBool true)])) in
+  present ["developer_mode"; "silent_developer_mode"; "alpha_final"; "alpha_final_type"; "alpha_minimum";
+           "final_bounds_scalar"; "initial_step_percentage"; "algorithm_choice"] f = true /\
+  run_prog children_DailySettings f prog_VAlphaFinal = None /\
+  run_prog [] [("alpha_final", SLeaf (JNum 3)); ("alpha_final_type", SLeaf (JStr "last")); ("alpha_minimum", SLeaf (JNum (-100)))]
+           prog_VAlphaFinal = Some RCross /\
+  run_prog [] [("initial_step_percentage", SLeaf JNull); ("algorithm_choice", SLeaf (JStr "nlopt_sbplx"))] prog_VInitStep = Some RCross /\
+  run_prog [] [("reduce_splits_num_std", SLeaf (JList [JNum 1]))] prog_VReduceStd = Some RCross /\
+  run_prog children_DailySettings
+           (match vfields reg children_DailySettings [("alpha_selection", JNum 1)] with Some f' => f' | None => [] end) prog_VDevMode = Some RDeveloper.
+Proof. repeat (split; [vm_compute; reflexivity|]). vm_compute. reflexivity. Qed.
